@@ -1,0 +1,16 @@
+//go:build verif
+
+package filesystem
+
+// Contracts for package filesystem. Comment-only file: compiled only under
+// the "verif" build tag, contains no code. The "//@" lines are read by
+// /verif/govc.
+
+// ParseOwnershipIdentifier is a deterministic function of its argument; what
+// it computes (regular expressions, number parsing) is outside the verifier's
+// reach, so only determinism and purity are stated (trusted, not verified).
+//@ ufunc ownerKind(s string) int
+//@ func ParseOwnershipIdentifier
+//@   opaque
+//@   pure
+//@   ensures result0 == ownerKind(specification)
